@@ -434,6 +434,9 @@ func checkC14(r *core.Run) {
 			if isNilIdent(finfo, cs.Call.Args[2]) {
 				continue // no waiter
 			}
+			if paramByIndex(f, cs.Call.Args[2], finfo) != nil && paramByIndex(f, cs.Call.Args[0], finfo) != nil {
+				continue // one send entry point forwarding its own message and callback to the other: checked at its callers
+			}
 			nWaited++
 			r.Sites++
 			originFollowSingle = true // the id may come through a one-line helper around the counter
